@@ -82,6 +82,12 @@ func flatten(toks []tok) []sym {
 	return out
 }
 
+// sameTagClass: start and self-closing tags are both opening tags (a sanitiser may re-serialise
+// one as the other); end tags are their own class.
+func sameTagClass(a, b html.TokenType) bool {
+	return (a == html.EndTagToken) == (b == html.EndTagToken)
+}
+
 func symStr(s []sym, from int) string {
 	var sb strings.Builder
 	for i := from; i < len(s) && i < from+40; i++ {
@@ -106,7 +112,7 @@ func exactWalk(in, out []sym, spaces bool) (ok bool, why string) {
 			}
 			return false, "input text at symbol " + itoa(i) + " " + symStr(in, i) + " is not reproduced; output continues with " + symStr(out, j)
 		}
-		if j < len(out) && out[j].tag && out[j].typ == s.typ && out[j].name == s.name {
+		if j < len(out) && out[j].tag && sameTagClass(out[j].typ, s.typ) && out[j].name == s.name {
 			j++ // kept
 			continue
 		}
@@ -134,7 +140,7 @@ func weakWalk(in, out []sym, spaces bool) (bool, string) {
 			s := in[i]
 			i++
 			if o.tag {
-				if s.tag && s.typ == o.typ && s.name == o.name {
+				if s.tag && sameTagClass(s.typ, o.typ) && s.name == o.name {
 					found = true
 					break
 				}
